@@ -259,13 +259,18 @@ def r04g(ctx, run):
     EU = V("Ty::ErrorUnion", {"error_ty": u8, "payload_ty": u64})                                                   # payload 0..8, tag at 8, size 9
     D = V("Ty::Distinct", {"uid": 9, "sub_ty": S})
     OS = V("Ty::Optional", {"sub_ty": S})                                                                           # payload 0..17, tag at 17, size 18
+    T = V("Ty::ConcreteStruct", {"uid": 21, "members": [mem("tag", u8), mem("weight", u64)]})                 # tag@0 weight@8, size 16 = stride 16, 7 bytes of padding INSIDE
+    A3 = V("Ty::ConcreteArray", {"size": 3, "sub_ty": T})                                                          # items at 0, 16, 32: no gap between items, gaps inside each
+    ST = V("Ty::ConcreteStruct", {"uid": 22, "members": [mem("table", A3), mem("n", u8)]})                         # table@0, n@48, size 49
     layout = {
+        repr(T): dict(size=16, stride=16, offsets=[0, 8]), repr(A3): dict(size=48, stride=48), repr(ST): dict(size=49, stride=56, offsets=[0, 48]),
         repr(u8): dict(size=1, stride=1), repr(u16): dict(size=2, stride=2), repr(u64): dict(size=8, stride=8),
         repr(S): dict(size=17, stride=24, offsets=[0, 8, 16]), repr(A2): dict(size=41, stride=48), repr(E): dict(size=9, stride=16, discr=8), repr(va): dict(size=8, stride=8),
         repr(vb): dict(size=2, stride=2), repr(O): dict(size=3, stride=4, discr=2), repr(EU): dict(size=9, stride=16, discr=8), repr(D): dict(size=17, stride=24),
         repr(OS): dict(size=18, stride=24, discr=17),
     }
     smask = [0] + list(range(8, 17))
+    tmask = [0] + list(range(8, 16))
     # (name, type, set of offsets that belong to the value for the given tag byte, (tag offset, tag value) or None)
     samples = [
         ("struct {u8, u64, u8}", S, set(smask), None),
@@ -276,6 +281,9 @@ def r04g(ctx, run):
         ("u8!u64 holding the payload", EU, set(range(0, 9)), (8, 1)), ("u8!u64 holding the error", EU, {0, 8}, (8, 0)),
         ("distinct struct", D, set(smask), None),
         ("?struct holding a value", OS, set(smask) | {17}, (17, 1)),
+        ("struct {u8, u64} (size = stride, padding inside)", T, set(tmask), None),
+        ("[3]struct {u8, u64} (items tightly packed, padding inside each item)", A3, {16 * q + x for q in range(3) for x in tmask}, None),
+        ("struct {[3]struct {u8, u64}, u8}", ST, {16 * q + x for q in range(3) for x in tmask} | {48}, None),
     ]
 
     class ZI(SymInterp):
@@ -363,7 +371,7 @@ def r04g(ctx, run):
                   "zero_padding on a %s: %s" % (name, "; ".join(x for x in (
                       ("bytes %s belong to the value and are overwritten (the program reads a comptime result that differs from what the block computed)" % lost) if lost else "",
                       ("bytes %s are padding and keep their (unwritten) contents" % dirty) if dirty else "") if x)))
-    if n < 8:
+    if n < 11:
         raise LookupError("zero_padding samples evaluated: %d" % n)
 
 
@@ -572,7 +580,7 @@ def rules(ctx):
         Rule("R04.a", "address-bearing comptime results are rejected or relocated (top level and through aggregate members)", 16, r04a),
         Rule("R04.b", "all comptime blocks are evaluated before code generation, which receives those results and never recompiles an evaluated block", 9, r04b),
         Rule("R04.e", "every comptime block the JIT runs gets a recorded result (must-pass-through results.insert in the evaluation loop)", 1, r04e),
-        Rule("R04.g", "the canonicalisation of captured bytes keeps every byte of the value and zeroes the rest (zero_padding evaluated on sample layouts)", 8, r04g),
+        Rule("R04.g", "the canonicalisation of captured bytes keeps every byte of the value and zeroes the rest (zero_padding evaluated on sample layouts)", 13, r04g),
         Rule("R04.f", "a global's constant data is converted to (or tested against) the declared type it is read at", 1, r04f),
         Rule("R04.d", "a comptime expression and its body are recorded at the same type (inference and weak-type replacement)", 2, r04d),
         Rule("R04.c", "capture table: read-back type width = Cranelift type width; serialisation at the recorded width", 20, r04c),
